@@ -10,7 +10,7 @@ map built from pristine deep copies returns for the same argument.
 """
 import numpy as np
 
-from .. import cover, emmon, gen, ref
+from .. import core, cover, emmon, gen, ref
 
 LEVEL = 'exploration'
 JOBS = {'quick': 4, 'thorough': 16}
@@ -19,7 +19,7 @@ REQUIRED_CLASSES = ('call:through-a-copy-of-the-map', 'poke:edit-equivalences', 
                     'op:mutate-argument', 'multi-residue', 'shipped-pair', 'reject:other-atom-names', 'reject:non-molecule',
                     'call-after-reject', 'call-after-mutation', 'mutate-argument:partial', 'mutate-argument:rotate-about-own-atom',
                     'reject:same-foreign-object-again', 'map:made-by-an-alignment',
-                    'history:construction-molecule-changed-before-first-use')
+                    'history:construction-molecule-changed-before-first-use', 'op:degenerate-call', 'reject:late-name-other-bonds')
 RULE = ('histories of up to 30 operations over {call(arg from a pool of 6 conformations), reject(foreign argument), '
         'mutate(construction reference|target), mutate(earlier result), mutate(earlier argument)} on one map; reference '
         '>= 3 atoms (generated trees/graphs, multi-residue, shipped CUR/VTE pairs). Non-trivial history: >= 3 distinct '
@@ -148,6 +148,14 @@ def foreign(rng, refm, tgtm, kind):
         names = [f'Q{j}' for j in range(n)]
         return gen.make_molecule(refm.name, names, edges, pos, resnames=[a.resname for a in refm],
                                  resids=[a.gro_resid for a in refm])
+    if kind == 'late-name-other-bonds':
+        # the same molecule name, size and residues; the atoms agree with the reference from the first on and only the
+        # last one is called something else; the bonds are those of another molecule altogether (every atom bonded to the
+        # first one, which in the reference may be a chain end)
+        names = [a.name for a in refm]
+        names[-1] = 'ZZ'
+        return gen.make_molecule(refm.name, names, gen.star(n), pos, resnames=[a.resname for a in refm],
+                                 resids=[a.gro_resid for a in refm])
     if kind == 'other-name':
         return gen.make_molecule(refm.name + 'X', [a.name for a in refm], edges, pos,
                                  resnames=[a.resname for a in refm], resids=[a.gro_resid for a in refm])
@@ -177,7 +185,7 @@ def foreign(rng, refm, tgtm, kind):
 
 
 REJECTS = ['other-atom-names', 'other-name', 'other-size', 'target-molecule', 'residue', 'int', 'none', 'ndarray', 'str',
-           'other-residue-boundaries', 'numpy-scalar', 'list-of-positions']
+           'other-residue-boundaries', 'numpy-scalar', 'list-of-positions', 'late-name-other-bonds']
 
 
 def run_case(ctx, case):
@@ -249,8 +257,8 @@ def run_case(ctx, case):
                 ctx.violation('construction-table-changed', f'projection table / anchor assignment changed by {after}', witness={'history': history})
 
     for step in range(nops):
-        op = ['call', 'reject', 'mutate-ref', 'mutate-target', 'mutate-result', 'mutate-argument', 'poke-map'][
-            int(rng.choice(7, p=[.4, .15, .1, .1, .1, .1, .05]))]
+        op = ['call', 'reject', 'mutate-ref', 'mutate-target', 'mutate-result', 'mutate-argument', 'poke-map', 'degenerate-call'][
+            int(rng.choice(8, p=[.38, .14, .1, .1, .1, .1, .05, .03]))]
         if op == 'mutate-result' and not results:
             op = 'call'
         if step == 0 and i % 2 == 0:
@@ -319,7 +327,7 @@ def run_case(ctx, case):
                 foreign_pool[kind] = x
             ctx.monitor('rejection')
             ctx.hit('op:reject')
-            ctx.hit('reject:' + (kind if kind in ('other-atom-names', 'other-name', 'other-size', 'target-molecule', 'other-residue-boundaries') else 'non-molecule'))
+            ctx.hit('reject:' + (kind if kind in ('other-atom-names', 'other-name', 'other-size', 'target-molecule', 'other-residue-boundaries', 'late-name-other-bonds') else 'non-molecule'))
             try:
                 emap(x)
                 ctx.violation(f'foreign-argument-accepted:{kind}', f'no error for a {kind} argument', witness={'history': history})
@@ -327,6 +335,24 @@ def run_case(ctx, case):
                 pass
             except Exception as exc:  # noqa
                 ctx.violation(f'foreign-argument-raises-{type(exc).__name__}:{kind}', str(exc)[:200], witness={'history': history})
+            pending.add('reject')
+        elif op == 'degenerate-call':
+            # a conformation of the right molecule in which an atom sits exactly on a bonded neighbour, mapped by a caller
+            # that has NumPy raise on floating-point errors (or warnings as errors): whatever comes of that call - numbers
+            # that are not numbers, an exception - is not judged; what the map answers afterwards is
+            bad = pool[int(rng.integers(0, len(pool)))].copy()
+            p = np.array(bad.atoms_positions)
+            ed = emmon.mol_edges(refm)
+            a, b = ed[int(rng.integers(0, len(ed)))]
+            p[b] = p[a]
+            bad.atoms_positions = p
+            history.append(('degenerate-call', int(a), int(b)))
+            ctx.hit('op:degenerate-call')
+            try:
+                with core.settings(['fp-raise', 'warnings-as-errors'][int(rng.integers(0, 2))]):
+                    emap(bad)
+            except Exception:  # noqa
+                ctx.hit('recovery:call-failed-under-caller-settings-then-map-used-again')
             pending.add('reject')
         elif op in ('mutate-ref', 'mutate-target'):
             mol = refm if op == 'mutate-ref' else tgtm
@@ -351,7 +377,7 @@ def run_case(ctx, case):
         elif op == 'poke-map':
             # what the map hands out about itself is edited by the caller, and public attributes are re-assigned with the
             # value they already have: neither may change what the map returns
-            how = ['edit-equivalences', 'reassign-scale'][int(rng.integers(0, 2))]
+            how = ['edit-equivalences', 'reassign-scale', 'assign-refusable-scale'][int(rng.integers(0, 3))]
             history.append((op, how))
             ctx.hit('poke:' + how)
             try:
@@ -365,6 +391,16 @@ def run_case(ctx, case):
                             v.clear()
                     if isinstance(eq, dict) and eq:
                         eq.pop(next(iter(eq)))
+                elif how == 'assign-refusable-scale':
+                    # a value no scale factor can have is assigned; if the map refuses it (raises), the caller catches
+                    # that and the map must go on with the factor it was built with; if the map takes it silently (a plain
+                    # attribute), the caller puts the old value back
+                    keep = emap.scale_factor
+                    try:
+                        emap.scale_factor = [0, -0.5, float('nan'), float('inf')][int(rng.integers(0, 4))]
+                        emap.scale_factor = keep
+                    except Exception:  # noqa
+                        ctx.hit('poke:scale-assignment-refused')
                 else:
                     emap.scale_factor = emap.scale_factor
             except Exception as exc:  # noqa
